@@ -18,8 +18,11 @@ C03G == Grammar(
     "(boom-str!)", "(nth [] 5)", "(trace! :b)", "undefined-symbol", "['x]", "(rawboom!)", "(rawboom-str!)", "(rawraise!)",
     "(go-error \"user:g\")", "(panic \"p\")", "(panic (go-error \"user:q\"))",
     \* an update function that writes the atom being swapped and then throws: the throw is delivered, not retried away
-    "(swap! at (fn [v] (reset! at (+ v 1)) (throw :stale)))">>,
-  <<"(error-string _1)", "(unwrap-error _1)", "(mfail _1)",
+    "(swap! at (fn [v] (reset! at (+ v 1)) (throw :stale)))",
+    \* try forms without a body; an error that crosses eval
+    "(try (catch e :h) (finally (trace! :f)))", "(try (catch e :h))", "(try (finally (trace! :f)))", "(try)",
+    "(eval '(throw {:code 7}))">>,
+  <<"(error-string _1)", "(unwrap-error _1)", "(mfail _1)", "(eval (quote _1))",
     \* ... through builtins that call back into lisp
     "(update {:a 1} :a (fn [q] _1))", "(update-in {:a {:b 1}} [:a :b] (fn [q] _1))", "(map (fn [q] _1) [1 2])",
     "(apply (fn [q] _1) [1])", "(swap! (atom 1) (fn [q] _1))",
